@@ -171,7 +171,7 @@ pub fn check_sim(prop: &str, tier: &str) -> i32 {
         machinery.extend(crate::launcher::run(prop, &mut report));
     }
     // restart halves (journal engine) of the properties that quantify over crash points
-    if matches!(prop, "C03" | "C06" | "C07" | "C09" | "C13") {
+    if matches!(prop, "C03" | "C06" | "C07" | "C08" | "C09" | "C13" | "C14") {
         let jbudget = if quick { Duration::from_secs(40) } else { Duration::from_secs(15 * 60) };
         let (found, stats) = crate::journal::run(tier, Instant::now() + jbudget);
         machinery.extend(stats.machinery.iter().cloned());
